@@ -180,7 +180,10 @@ class Ctx:
     def _pc_ids(self):
         n = len(self.pc)
         if getattr(self, "_ids_n", -1) != n:
-            self._ids = set(z3.simplify(t).get_id() for t in self.pc)
+            # the simplified terms are kept alive: z3 reuses the id of a freed AST, and an id
+            # of a dead term in this set would make an unrelated condition look "already decided"
+            self._ids_terms = [z3.simplify(t) for t in self.pc]
+            self._ids = set(t.get_id() for t in self._ids_terms)
             self._ids_n = n
         return self._ids
 
